@@ -63,8 +63,12 @@ def values(field, n, salt):
     return [BASE[field] * (1 + 0.01 * (i + 1)) + 0.001 * salt for i in range(n)]
 
 
+_KIND = [0]
+
+
 def configs(bits, presence):
     """Yield (label, met dict)."""
+    _KIND[0] = 0
     islist = {f: bool(bits >> k & 1) for k, f in enumerate(FIELDS)}
     for n in (1, 2, 3, 4):
         variants = [("consistent", {})]
@@ -90,7 +94,8 @@ def configs(bits, presence):
                     if tlen < 0:
                         continue
                     m["timestamps"] = [f"2024-01-01T{h:02d}:00" for h in range(tlen)]
-                    kind_ = (n + len(vlabel) + tlen) % 5   # labels are labels: any strings / numbers, in any order, repeated or not
+                    _KIND[0] += 1
+                    kind_ = (_KIND[0] + bits) % 7   # labels are labels: any strings / numbers, in any order, repeated or not (every kind for every length)
                     if kind_ == 1:
                         m["timestamps"] = [f"{9 + h}:30" for h in range(tlen)]              # "9:30", "10:30": not in string order
                     elif kind_ == 2:
@@ -99,6 +104,10 @@ def configs(bits, presence):
                         m["timestamps"] = [f"day{h // 2}" for h in range(tlen)]             # repeated labels
                     elif kind_ == 4:
                         m["timestamps"] = [f"DOY {100 - h}" for h in range(tlen)]           # descending
+                    elif kind_ == 5:
+                        m["timestamps"] = [h + 1 for h in range(tlen)]                      # record numbers counted from one (integers that are also positions)
+                    elif kind_ == 6:
+                        m["timestamps"] = [[22, 23, 0, 1, 2][h % 5] for h in range(tlen)]   # hours running over midnight, as integers
                 yield (f"n={n},{vlabel},ts={tlabel}", m)
 
 
@@ -184,6 +193,21 @@ def run_case(case):
             bump(f"accepted:n={exp[1]}")
         if nontrivial:
             sigs.append(sig)
+        # --- right after it, in the same process: a sparse forcing that leaves fields to their documented defaults (Obukhov length 1e9,
+        # wind speed 5, direction 270) - what the previous configuration said about those fields is none of its business
+        if k % 4 == 1:
+            for sparse in ({"ustar": 0.3}, {"z0": 0.05}, {"ustar": [0.31, 0.52]}, {"ustar": 0.4, "wind_dir": [10.0, 20.0, 30.0]}):
+                full = dict({"mol": 1e9, "wind_speed": 5.0, "wind_dir": 270.0}, **sparse)
+                exp_s = model(dict(full, ustar=full.get("ustar")))
+                counters["sparse_configurations_after_a_full_one"] = counters.get("sparse_configurations_after_a_full_one", 0) + 1
+                try:
+                    ms = parse_config_dict(dict(raw, met=dict(sparse))).met
+                    got_s = ("ok", ms.n_timesteps, [ms.get_step(i_) for i_ in range(ms.n_timesteps)])
+                except Exception as e:  # noqa
+                    got_s = ("reject", repr(e)[:120])
+                if got_s[0] != "ok" or got_s[1] != exp_s[1] or got_s[2] != exp_s[2]:
+                    viol.append({"what": "defaults_of_a_sparse_forcing_depend_on_the_configuration_parsed_before", "met": sparse, "previous": met,
+                                 "got": got_s[:3], "expected": exp_s[1:3]})
         # --- path 3: drivers' iteration count (solver stubbed by the recorder)
         if exp[0] == "ok" and outcomes["parse"][0] == "ok" and (tier == "thorough" or k % 3 == 0):
             cfg = outcomes["parse"][2]
